@@ -16,6 +16,32 @@ type modelFn func(ex *Exec, fr *frame, st *State, reach *Term, args []Value, ins
 var models = map[string]modelFn{}
 var modelMods = map[string]func(ex *Exec, ms *modSet){}
 var ifaceModels = map[string]modelFn{}
+
+type genericModelFn func(ex *Exec, fr *frame, st *State, reach *Term, args []Value, instr ssa.Instruction, fn *ssa.Function) Value
+
+var genericModels = map[string]genericModelFn{}
+var genericModelMods = map[string]func(ex *Exec, ms *modSet, fn *ssa.Function){}
+
+// sortPermutes: in-place sort = the slice's contents are permuted (the comparator is not interpreted).
+func sortPermutes(ex *Exec, st *State, reach *Term, s *Term, elem types.Type) {
+	vc := ex.vc
+	c, cs := ex.sliceComp(elem)
+	base := ex.comp(st, c, cs)
+	old := Select(base, vc.SlicePtr(s))
+	nw := vc.FreshConst("sorted", cs.ElemSort())
+	it := intT()
+	iq := Sym("i!q", vc.IntSort())
+	jq := Sym("j!q", vc.IntSort())
+	off, n := vc.SliceOff(s), vc.SliceLen(s)
+	inb := func(i *Term) *Term { return And(vc.Cmp("<=", vc.IntConst(0), i, it), vc.Cmp("<", i, n, it)) }
+	at := func(a, i *Term) *Term { return Select(a, vc.Arith("+", off, i, it)) }
+	vc.Assume(reach, Forall([]*Term{iq}, Implies(inb(iq), Exists([]*Term{jq}, And(inb(jq), Eq(at(nw, iq), at(old, jq)))))))
+	vc.Assume(reach, Forall([]*Term{jq}, Implies(inb(jq), Exists([]*Term{iq}, And(inb(iq), Eq(at(nw, iq), at(old, jq)))))))
+	// outside the slice window nothing changes
+	vc.Assume(reach, Forall([]*Term{iq}, Implies(Not(inb(vc.Arith("-", iq, off, it))), Eq(Select(nw, iq), Select(old, iq)))))
+	ex.setComp(st, c, Store(base, vc.SlicePtr(s), nw))
+	vc.note("sort.Slice / slices.SortFunc / sort.Strings modelled as an arbitrary permutation of the slice (comparator not interpreted)")
+}
 var ifaceModelMods = map[string]func(ex *Exec, ms *modSet){}
 
 const cs = "(k8s.io/utils/cpuset.CPUSet)."
@@ -293,6 +319,29 @@ func init() {
 			return nil
 		}
 	}
+	genericModels["slices.SortFunc"] = func(ex *Exec, fr *frame, st *State, reach *Term, args []Value, instr ssa.Instruction, fn *ssa.Function) Value {
+		st0 := args[0].(*Term)
+		elem := types.Unalias(fn.Signature.Params().At(0).Type()).Underlying().(*types.Slice).Elem()
+		sortPermutes(ex, st, reach, st0, elem)
+		return nil
+	}
+	genericModelMods["slices.SortFunc"] = func(ex *Exec, ms *modSet, fn *ssa.Function) {
+		elem := types.Unalias(fn.Signature.Params().At(0).Type()).Underlying().(*types.Slice).Elem()
+		c, s := ex.sliceComp(elem)
+		ms.add(c, s)
+	}
+	genericModels["slices.Sort"] = genericModels["slices.SortFunc"]
+	genericModelMods["slices.Sort"] = genericModelMods["slices.SortFunc"]
+	models["sort.Strings"] = func(ex *Exec, fr *frame, st *State, reach *Term, args []Value, instr ssa.Instruction) Value {
+		sortPermutes(ex, st, reach, args[0].(*Term), types.Typ[types.String])
+		return nil
+	}
+	modelMods["sort.Strings"] = func(ex *Exec, ms *modSet) { c, s := ex.sliceComp(types.Typ[types.String]); ms.add(c, s) }
+	models["sort.Ints"] = func(ex *Exec, fr *frame, st *State, reach *Term, args []Value, instr ssa.Instruction) Value {
+		sortPermutes(ex, st, reach, args[0].(*Term), types.Typ[types.Int])
+		return nil
+	}
+	modelMods["sort.Ints"] = func(ex *Exec, ms *modSet) { c, s := ex.sliceComp(types.Typ[types.Int]); ms.add(c, s) }
 	models["strings.HasPrefix"] = func(ex *Exec, fr *frame, st *State, reach *Term, args []Value, instr ssa.Instruction) Value {
 		ex.vc.declare("str.prefixof", "(declare-fun str.prefixof (Str Str) Bool)")
 		return App("str.prefixof", SBool, args[1].(*Term), args[0].(*Term))
